@@ -348,3 +348,20 @@ C04 = dict(
     },
 )
 PROPS["C04"] = C04
+
+# --------------------------------------------------------------------------------------------- C10
+C10 = dict(
+    title="A storage error surfaces as an error and is recoverable by reopening",
+    variant="model",
+    patterns=["c10_"],
+    functions=["hypercore::storage::Storage::{flush_infos,read_infos_to_vec,get_random_access}", "map_random_access_err"],
+    oracle="journal of issued operations of a hand-written RandomAccess backend whose k-th operation fails",
+    outside=["the public calls in core.rs (`?` on every storage call before the in-memory commit) and the state after reopening: the async Hypercore API does not fit in CBMC here; recovery after a fault reduces to crash recovery (C02) only because a failed batch stops issuing operations, which is what is decided here",
+             "backends whose futures yield (the harness backend returns ready futures)"],
+    harnesses={
+        "c10_flush_infos_fault": H("quick", "flush_infos(write, delete, truncate) with the k-th operation failing: Err iff k<3, nothing issued after the failure", "k in 0..=3", "batch of 3", timeout=900, unwind=2, rules=[(r"flush_infos|read_infos_to_vec|4iter", 6)]),
+        "c10_read_infos_fault": H("quick", "read_infos_to_vec(2 reads) with the k-th operation failing: Err iff k<2, nothing issued after", "k in 0..=2", "batch of 2", timeout=900, unwind=2, rules=[(r"flush_infos|read_infos_to_vec|4iter", 6)]),
+    },
+)
+# not registered: both harnesses exhaust 9 GB (drop glue of io::Error / dyn Future fan-out); C10 stays not_applicable
+# PROPS["C10"] = C10
